@@ -205,7 +205,14 @@ class Env:
             return "s:" + hx(self.ms[int(r)].escape(p))
         if k == "redir":
             t, h = r.split(":")
-            return "s:" + hx(self.ms[int(h)].escape(TOKENS[int(t)](p)))
+            # ONE token object per (kind, path) of a case, handed to every machine it is asked for: whether a machine
+            # accepts it must not depend on who rendered it before
+            key = (int(t), str(p), id(p.host))
+            if not hasattr(self, "_tokens"):
+                self._tokens = {}
+            if key not in self._tokens:
+                self._tokens[key] = TOKENS[int(t)](p)
+            return "s:" + hx(self.ms[int(h)].escape(self._tokens[key]))
         if k == "bg":
             h, o, e = r.split(",")
             kw = {}
